@@ -21,12 +21,16 @@ class Clock(i_lib.Clock):
         self._start_time = 0.0
         self._cue_time = 0.0
         self._keep_going = True
+        self._max_wait = 1.0
 
     def start(self):
         self.reset()
         # Set here, not in the new thread: a stop() that arrives before that
         # thread gets to run must not be undone by it.
         self._keep_going = True
+        sleep_time = float(
+            injection.provide(i_lib.Settings).get_value('sleep_time'))
+        self._max_wait = max(2.0 * sleep_time, 0.05)
         threading.Thread(target=self.run, args=(), daemon=True).start()
 
     @injection.inject(i_lib.Settings)
@@ -53,7 +57,10 @@ class Clock(i_lib.Clock):
 
     def wait(self):
         if self._keep_going:
-            self._event.wait()
+            # Bounded: a stop() that lands between the test above and the wait
+            # below, after the last tick has fired, would otherwise leave the
+            # script waiting for a tick that never comes.
+            self._event.wait(self._max_wait)
         return self._keep_going
 
     def pause_for(self, delay):
